@@ -710,7 +710,7 @@ func Run(c *core.Ctx) {
 		}
 	}
 	// enumeration
-	maxU, maxR := c.Scale(7, 8), c.Scale(6, 7)
+	maxU, maxR := c.Scale(7, 8), c.Scale(7, 8)
 	for n := -1; n <= maxU; n++ {
 		reqs = append(reqs, reqTopo(n, false, "lib"))
 	}
